@@ -144,6 +144,9 @@ def gen_ops(rng, prof, ctx, pid, depth):
             if rng.random() < 0.5:
                 continue
             op = {'op': 'raise', 'exc': [rng.choice(sorted(EXC)), [ctx['val']()]]}
+        elif k == 'request':
+            # a slot of the shared resource: the awaited event is a queued request; later ops run while holding it
+            op = {'op': 'request', 'h': h} if rng.random() < 0.65 else {'op': 'release'}
         elif k == 'negtimeout':
             op = {'op': 'negtimeout', 'd': -rng.choice([1, 0.5, 2.0 ** -52, 1e-9, 3])}
         elif k == 'fire':
@@ -208,6 +211,9 @@ class World:
         self.cbs = {}
         self.cvs = []
         self.proc_ids = {}
+        self.res = None         # one shared Resource(capacity 1) for the 'request' / 'release' ops
+        self.requests = []      # (pid, label, request)
+        self.withdrawn = set()  # ids of requests the program itself cancelled
 
     def rec(self, tag, *rest):
         env = self.env
@@ -395,9 +401,33 @@ class World:
             if tries > 2:
                 return 'next'
 
+    def give_back(self, pid, mine):
+        for req in mine:
+            if req.triggered:
+                self.res.release(req)
+            else:
+                self.withdrawn.add(id(req))
+                req.cancel()
+        if mine:
+            self.rec('O', pid, None, 'release', len(mine))
+        del mine[:]
+
     def body(self, pid, ops):
         env = self.env
         self.rec('B', pid)
+        mine = []
+        try:
+            r = yield from self._body(pid, ops, mine)
+        except GeneratorExit:
+            del mine[:]              # the world is being discarded: nothing to give back
+            raise
+        finally:
+            if mine:
+                self.give_back(pid, mine)
+        return r
+
+    def _body(self, pid, ops, mine):
+        env = self.env
         try:
             for i, op in enumerate(ops):
                 k = op['op']
@@ -482,6 +512,19 @@ class World:
                     fev.callbacks.append(self.make_cb(op.get('cb', 'f'), False))
                     self.rec('O', pid, i, 'addcb', '%s.%d' % (pid, i), op.get('cb', 'f'), 'plain')
                     continue
+                elif k == 'request':
+                    if mine:
+                        continue
+                    if self.res is None:
+                        from onl.sim import Resource as _Resource
+                        self.res = _Resource(env, capacity=1)
+                    ev = self.res.request()
+                    env.name(ev, '%s.%d' % (pid, i))
+                    mine.append(ev)
+                    self.requests.append((pid, '%s.%d' % (pid, i), ev))
+                elif k == 'release':
+                    self.give_back(pid, mine)
+                    continue
                 elif k == 'negtimeout':
                     n0 = len(env.log)
                     try:
@@ -527,6 +570,13 @@ class World:
         except GeneratorExit:
             raise
         except BaseException as e:
+            if isinstance(e, (ImportError, NameError, UnboundLocalError)):
+                tb = e.__traceback__
+                while tb is not None and tb.tb_next is not None:
+                    tb = tb.tb_next
+                from .repo import is_repo_frame
+                if tb is not None and not is_repo_frame(tb.tb_frame.f_code.co_filename):
+                    env.harness_fault = repr(e)      # a bug of the harness itself, not an outcome of the program
             self.rec('E', pid, 'raise', (type(e).__name__, san(e.args)))
             raise
         self.rec('E', pid, 'ret', None)
@@ -614,8 +664,22 @@ def drive(w, plan, max_steps=3000):
             except (Exception, HarnessAbort) as e:
                 w.rec('D', 'until', t, 'exc', san(e), now0)
                 _finish_until(w, max_steps)
-        elif k == 'until_ev':
-            ev = lookup(w, item[1])
+        elif k in ('until_ev', 'until_cond'):
+            if k == 'until_cond':
+                # the caller waits for a combination of events: a condition built outside any process
+                ops = [e for e in (lookup(w, lb) for lb in item[2]) if e is not None]
+                if not ops:
+                    continue
+                auto = env._auto
+                try:
+                    ev = env.any_of(ops) if item[1] == 'any' else env.all_of(ops)
+                except ValueError:
+                    continue
+                env.name(ev, item[3])
+                env._auto = auto           # automatic labels of the program stay what they are in an unsplit run
+                item = [k, item[3]]
+            else:
+                ev = lookup(w, item[1])
             if ev is None:
                 continue
             was = ev.callbacks is None
@@ -626,6 +690,8 @@ def drive(w, plan, max_steps=3000):
                       env.step_no - s0)
             except (Exception, HarnessAbort) as e:
                 w.rec('D', 'until_ev', item[1], 'exc', san(e), None, was, env.step_no - s0)
+    if getattr(env, 'harness_fault', None):
+        raise RuntimeError('harness fault inside a process body: %s' % env.harness_fault)
     return env.step_no
 
 
